@@ -998,6 +998,12 @@ func x7Bare(p *an.Prog, r *an.Result) {
 						if c := an.CallOf(gd.Cond); c != nil && an.CallName(c) == "(reflect.Value).IsNil" {
 							isNil = true
 						}
+						// a predicate of the module that answers true only for a nil pointer (nilDrop)
+						if c := an.CallOf(gd.Cond); c != nil {
+							if callee := c.StaticCallee(); callee != nil && p.InModule(callee) && nilPointerPredicate(callee) {
+								ptrArm, isNil = true, true
+							}
+						}
 					}
 					if okNil || ptrArm && isNil {
 						r.OK(an.FuncName(uf), "nil value for nil or a nil pointer", ld.Pos(), "")
@@ -1655,4 +1661,47 @@ func unitGuarded(p *an.Prog, unit map[*ssa.Function]bool, blk *ssa.BasicBlock, p
 		}
 	}
 	return true
+}
+
+// nilPointerPredicate: f returns true only where a reflect.Value of its argument has been found to be of
+// kind Ptr and IsNil: every result that is not the constant false is computed in a block that both tests
+// dominate on their true edges.
+func nilPointerPredicate(f *ssa.Function) bool {
+	if f.Blocks == nil || f.Signature.Results().Len() != 1 || !isBoolType(f.Signature.Results().At(0).Type()) {
+		return false
+	}
+	ok, n := true, 0
+	an.EachInstr(f, func(in ssa.Instruction) {
+		ret, isRet := in.(*ssa.Return)
+		if !isRet {
+			return
+		}
+		for _, o := range an.Origins(ret.Results[0], an.StepValue) {
+			if b, isC := an.ConstBool(o); isC && !b {
+				continue
+			}
+			n++
+			blk := ret.Block()
+			if oi, isI := o.(ssa.Instruction); isI && oi.Block() != nil {
+				blk = oi.Block()
+			}
+			ptr, nilT := false, false
+			for _, g := range an.GuardsAt(blk) {
+				if b, isB := g.Cond.(*ssa.BinOp); isB && (b.Op == token.EQL && g.True || b.Op == token.NEQ && !g.True) {
+					for _, pair := range [][2]ssa.Value{{b.X, b.Y}, {b.Y, b.X}} {
+						if c, isC := an.ConstInt(pair[1]); isC && c == 22 && isPkgType(pair[0].Type(), "reflect", "Kind") {
+							ptr = true
+						}
+					}
+				}
+				if c := an.CallOf(g.Cond); c != nil && g.True && an.CallName(c) == "(reflect.Value).IsNil" {
+					nilT = true
+				}
+			}
+			if !ptr || !nilT {
+				ok = false
+			}
+		}
+	})
+	return ok && n > 0
 }
